@@ -1,5 +1,6 @@
 import KmipModel.Client
 import KmipProofs.DecodeBasic
+import KmipProps.C06
 /-
   C14 — the Client returns a payload only for a matching successful reply, and never panics.
 -/
@@ -181,5 +182,48 @@ theorem C14_fresh_history_safe (ops : List COp) : COut.panic ∉ (crun CState.fr
   C14_states_no_panic ops _ cinv_fresh
 
 end Client
+
+/-! ### the reply as it arrives from the transport -/
+
+/-- what `Send` makes of a reply stream read through the Client's Decoder (its bufio over the TLS connection, delivering the
+    bytes in whatever records and reads it likes): Decode into a Response of descriptor `sd`, then the checks of `send` -/
+def sendOver (sd : SD) (op : Nat) (src : Io.Src) : SendResult :=
+  send true true op (match Stk.decodeSrc sd src with
+    | .ok (v, _, _) => respView v
+    | _ => none)
+
+def sendFlat (sd : SD) (op : Nat) (bs : Bytes) (fin : Fin) : SendResult :=
+  send true true op (match decodeSD sd bs fin with
+    | .ok (v, _, _) => respView v
+    | _ => none)
+
+/-- the outcome of `Send` is a function of the bytes of the reply, not of how the transport delivers them: however the reply is
+    cut into reads (guard `Stack.Inv`), `Send` returns what it returns on the flat bytes - so every statement above about
+    `send` on a decoded reply holds for the reply as it comes off the wire -/
+theorem C14_send_transport_independent (sd : SD) (op : Nat) (src : Io.Src) (hi : (Io.Stack.top src).Inv) :
+    sendOver sd op src = sendFlat sd op src.flat src.fin := by
+  have hv := C06_decode_over_any_chunking sd src hi
+  unfold sendOver sendFlat
+  cases hS : Stk.decodeSrc sd src with
+  | ok r =>
+    obtain ⟨v, n, x⟩ := r
+    cases hD : decodeSD sd src.flat src.fin with
+    | ok r' =>
+      obtain ⟨v', n', d'⟩ := r'
+      rw [hS, hD] at hv
+      simp only [viewS, viewD, Outcome.ok.injEq, Prod.mk.injEq] at hv
+      simp only [hv.1]
+    | err e => rw [hS, hD] at hv; simp [viewS, viewD] at hv
+    | panic p => rw [hS, hD] at hv; simp [viewS, viewD] at hv
+  | err e =>
+    cases hD : decodeSD sd src.flat src.fin with
+    | ok r' => rw [hS, hD] at hv; simp [viewS, viewD] at hv
+    | err e' => rfl
+    | panic p => rfl
+  | panic p =>
+    cases hD : decodeSD sd src.flat src.fin with
+    | ok r' => rw [hS, hD] at hv; simp [viewS, viewD] at hv
+    | err e' => rfl
+    | panic p' => rfl
 
 end Kmip.Client
